@@ -5,4 +5,5 @@ CONSTANTS Tok = {"e","dot","dd","ipfs","ipns","ipld","IPFS","cidV0","cidV1b32","
           LenRed = 5
           LenUri = 3
           LenName = 3
-INVARIANTS Emit Idempotent NoDots PrintedIsCanonical SameRootCid MutableHasNoCid UriEqualsPath NameRoundTrip TrailingSlashKept
+          LenNameW = 2
+INVARIANTS Emit Idempotent NoDots PrintedIsCanonical SameRootCid MutableHasNoCid UriEqualsPath NameRoundTrip BinaryLaws TrailingSlashKept
